@@ -110,6 +110,10 @@ func genAttrType(t *rapid.T, allowDyn bool) Type {
 
 // ---------------------------------------------------------------- schema
 
+// labelCounts: number of labels of a block type, 0-8 (the first three entries are
+// the unlabelled ones; block maps take theirs from the rest).
+var labelCounts = []int{0, 0, 0, 1, 1, 2, 2, 3, 4, 4, 5, 6, 7, 8}
+
 var blockKinds = []string{"single", "single", "list", "list", "set", "map", "map", "tuple", "objmap", "attrs"}
 
 // GenSchema draws a body schema with nesting <= depth.
@@ -183,15 +187,15 @@ func genBody(t *rapid.T, nm *namer, depth int, allowDyn bool, top bool, self str
 		}
 		switch bs.Kind {
 		case "single":
-			bs.NLabels = rapid.SampledFrom([]int{0, 0, 1, 2}).Draw(t, "nlabels")
+			bs.NLabels = rapid.SampledFrom(labelCounts).Draw(t, "nlabels")
 			bs.Req = rapid.IntRange(0, 3).Draw(t, "breq") == 0
 		case "list", "set", "tuple":
-			bs.NLabels = rapid.SampledFrom([]int{0, 0, 1, 2}).Draw(t, "nlabels")
+			bs.NLabels = rapid.SampledFrom(labelCounts).Draw(t, "nlabels")
 			bs.Min = rapid.SampledFrom([]int{0, 0, 0, 1, 2}).Draw(t, "min")
 			bs.Max = rapid.SampledFrom([]int{0, 0, 3}).Draw(t, "max")
 			bs.Ptr = rapid.Bool().Draw(t, "bptr")
 		case "map", "objmap":
-			bs.NLabels = rapid.IntRange(1, 2).Draw(t, "nlabels")
+			bs.NLabels = rapid.SampledFrom(labelCounts[3:]).Draw(t, "nlabels")
 			if bs.Kind == "map" && !allowDyn {
 				// an empty two-level block map has a different element type from a
 				// non-empty one, which the enclosing list/set/map cannot hold
@@ -460,6 +464,30 @@ func genLabels(t *rapid.T, n int) []string {
 	return l
 }
 
+// siblingLabels draws the label lists of n sibling blocks with k labels each:
+// often the siblings share a label prefix of some length (frequently all but the
+// last label) and differ in the rest.
+func siblingLabels(t *rapid.T, n, k int) [][]string {
+	out := make([][]string, n)
+	if k == 0 {
+		return out
+	}
+	share := 0
+	switch rapid.IntRange(0, 4).Draw(t, "label-sharing") {
+	case 1, 2:
+		share = k - 1
+	case 3:
+		share = rapid.IntRange(0, k-1).Draw(t, "shared-prefix")
+	case 4:
+		share = k // identical label lists (valid for lists/sets; dropped as duplicates for maps)
+	}
+	prefix := genLabels(t, share)
+	for i := range out {
+		out[i] = append(append([]string{}, prefix...), genLabels(t, k-share)...)
+	}
+	return out
+}
+
 func genBlocks(t *rapid.T, bs *BlockS) []BlockI {
 	var out []BlockI
 	switch bs.Kind {
@@ -478,25 +506,30 @@ func genBlocks(t *rapid.T, bs *BlockS) []BlockI {
 		}
 	case "list", "set", "tuple":
 		max := 3
+		if bs.NLabels > 0 {
+			max = 4
+		}
 		if bs.Max > 0 {
 			max = bs.Max
 		}
 		n := rapid.IntRange(bs.Min, max).Draw(t, "nrep")
 		uniform := rapid.IntRange(0, 9).Draw(t, "uniform") < 7
+		labels := siblingLabels(t, n, bs.NLabels)
 		for i := 0; i < n; i++ {
-			b := BlockI{Type: bs.Name, Labels: genLabels(t, bs.NLabels), Body: GenInstance(t, bs.Body)}
+			b := BlockI{Type: bs.Name, Labels: labels[i], Body: GenInstance(t, bs.Body)}
 			if uniform && i > 0 {
 				b.Body = sameShape(t, bs.Body, &out[0].Body)
 			}
 			out = append(out, b)
 		}
 	case "map", "objmap":
-		n := rapid.IntRange(0, 3).Draw(t, "nrep")
+		n := rapid.IntRange(0, 4).Draw(t, "nrep")
 		uniform := rapid.IntRange(0, 9).Draw(t, "uniform") < 7
 		seen := map[string]bool{}
+		labels := siblingLabels(t, n, bs.NLabels)
 		for i := 0; i < n; i++ {
-			l := genLabels(t, bs.NLabels)
-			k := fmt.Sprint(l)
+			l := labels[i]
+			k := fmt.Sprintf("%q", l)
 			if seen[k] {
 				continue
 			}
